@@ -88,7 +88,7 @@ def run(ck):
                 ck.violation(f"truncate::<{N}>({v:#x}) returned {snap.wits[low]:#x}, not the value mod 2^{N}",
                              {"failing_input_found": True, "program": progs[name]}, key=f"trunc-value:{N}")
             # forced-output template: any other value on the returned wire must be unsatisfiable
-            if N % 4 == 0 or not quick:
+            if N % 4 == 0 or N in (1, 2, 3, 253, 254) or not quick:
                 w2 = list(snap.wits); w2[low] = (v % (1 << N) + 1) % R
                 w2 = composer.rewitness(snap, w2, frozen={low, 6}, first_new=FIRST + 1)
                 nm = name + "_forced"
